@@ -227,7 +227,7 @@ class Eval:
             return self.lit(n)
         if k == "local":
             if n["hid"] in self.env:
-                return self.env[n["hid"]]
+                return self._resym(self.env[n["hid"]])
             return top(self.node_ty(n))
         if k == "blk":
             return self.block(n["b"])
@@ -283,6 +283,8 @@ class Eval:
             return self.mcall(n)
         if k == "call":
             return self.call(n)
+        if k == "match":
+            return self.match_option(n)
         if k == "tup":
             for x in n["xs"]:
                 self.eval(x)
@@ -340,11 +342,55 @@ class Eval:
         self.symfacts = saved_facts
         return top("()")
 
+    def match_option(self, n):
+        """`match <option place> { Some(x) => A, None => B }`: both arms on copies of the state, joined."""
+        some = none = None
+        for a in n["arms"]:
+            p_ = a["pat"]
+            while p_.get("k") in ("ref", "deref"):
+                p_ = p_["p"]
+            if p_.get("k") == "tstruct" and p_["path"].endswith("::Some") and len(p_["ps"]) == 1:
+                some = (a, p_["ps"][0])
+            elif (p_.get("k") == "ppath" and p_["path"].endswith("::None")) or p_.get("k") == "wild":
+                none = a
+        if len(n["arms"]) != 2 or some is None or none is None:
+            raise ValueError("E2 cannot evaluate this match: " + short(pretty(n), 60))
+        src = pretty(strip(n["scrut"]))
+        st0 = (dict(self.env), dict(self.fields), dict(self.cells))
+        for nm, hid in pat_binds(some[1]):
+            b = _find_bind(some[1], hid)
+            self.env[hid] = self.some.get(src, top(self.c.types[b["t"]].lstrip("&")))
+        a = self.eval(some[0]["body"])
+        st1 = (self.env, self.fields, self.cells)
+        self.env, self.fields, self.cells = (dict(st0[0]), dict(st0[1]), dict(st0[2]))
+        b = self.eval(none["body"])
+        st2 = (self.env, self.fields, self.cells)
+        self.env, self.fields, self.cells = [_join_maps(x, y) for x, y in zip(st1, st2)]
+        if a.ty == "()" or b.ty == "()":
+            return a
+        return join(a, b)
+
+    def _resym(self, av):
+        """re-tighten a value that is exactly `sym + off` with the current facts about sym"""
+        if not av.is_int:
+            return av
+        lo, hi = av.lo, av.hi
+        for (s_, o) in av.lbs & av.ubs:
+            if s_ in self.symfacts:
+                flo, fhi = self.symfacts[s_]
+                lo, hi = max(lo, flo + o), min(hi, fhi + o)
+        if lo == av.lo and hi == av.hi:
+            return av
+        return AV(lo, hi, av.nan, av.lbs, av.ubs, av.ty)
+
     def _refinement(self, cnd):
-        """`x > 0.0` / `x >= 0.0` / `0.0 < x` with x a cell or local -> (kind, key, strict)"""
+        """`x > 0.0` / `x >= 0.0` / `0.0 < x` with x a cell or local -> (kind, key, strict);
+        integer `a op b` between locals -> ("rel", op, l, r)"""
         if cnd.get("k") != "bin" or cnd["op"] not in ("Gt", "Ge", "Lt", "Le"):
             return None
         l, r, op = strip(cnd["l"]), strip(cnd["r"]), cnd["op"]
+        if (self.c.ty(l) or "").lstrip("&") in INT_RANGES and l.get("k") == "local" and r.get("k") != "lit":
+            return ("rel", (l, r), op)
         if l.get("k") == "lit" and r.get("k") != "lit":
             l, r = r, l
             op = {"Gt": "Lt", "Lt": "Gt", "Ge": "Le", "Le": "Ge"}[op]
@@ -357,8 +403,33 @@ class Eval:
             return ("env", l["hid"], op)
         return None
 
+    def _apply_rel(self, l, r, op, branch):
+        # normalise to a relation  l <rel> r  that holds on this branch
+        rel = op if branch else {"Gt": "Le", "Ge": "Lt", "Lt": "Ge", "Le": "Gt"}[op]
+        lv = self.env.get(l["hid"])
+        try:
+            saved = self.ob
+            self.ob = lambda *a, **k: None
+            rv = self.eval(r)
+            self.ob = saved
+        except ValueError:
+            self.ob = saved
+            return
+        if lv is None or not lv.is_int or not rv.is_int:
+            return
+        if rel in ("Le", "Lt"):
+            d = 0 if rel == "Le" else -1
+            ubs = set(lv.ubs) | {(s_, o + d) for (s_, o) in rv.ubs}
+            self.env[l["hid"]] = AV(lv.lo, min(lv.hi, rv.hi + d), False, lv.lbs, ubs, lv.ty)
+        else:
+            d = 0 if rel == "Ge" else 1
+            lbs = set(lv.lbs) | {(s_, o + d) for (s_, o) in rv.lbs}
+            self.env[l["hid"]] = AV(max(lv.lo, rv.lo + d), lv.hi, False, lbs, lv.ubs, lv.ty)
+
     def _apply_ref(self, ref, branch):
         kind, key, op = ref
+        if kind == "rel":
+            return self._apply_rel(key[0], key[1], op, branch)
         store = self.cells if kind == "cell" else self.env
         v = store.get(key)
         if v is None or v.ty not in ("f32", "f64"):
@@ -667,3 +738,24 @@ class Eval:
         if name == "is_nan":
             return AV(Fr(0), Fr(1), ty="bool")
         raise ValueError("E2: unsupported float intrinsic %s" % name)
+
+
+def eval_fn_lets(ev, fn, upto=None):
+    """Evaluate the scalar `let`s at the top of fn (before node `upto`) so hoisted temporaries are known."""
+    from .hir import walk
+    b = fn["body"]
+    while b.get("k") == "blk":
+        b = b["b"]
+    for s in b["stmts"]:
+        if upto is not None and (s is upto or any(x is upto for x in walk(s))):
+            break
+        if s.get("k") == "let" and s["pat"].get("k") == "bind" and s["init"] is not None:
+            ty = (ev.c.types[s["pat"]["t"]] or "").lstrip("&")
+            if ty in ("f32", "f64", "usize", "i32", "u64", "bool"):
+                saved = ev.ob
+                ev.ob = lambda *a, **k: None     # obligations of hoisted temporaries are re-generated at their uses
+                try:
+                    ev.stmt(s)
+                except ValueError:
+                    pass
+                ev.ob = saved
